@@ -42,6 +42,9 @@ CHECKS = {
  "C10": dict(cat="exploration", ref="DESIGN.md 3 (C10)", technique="seeded end-to-end refinement of the batch orchestration against an executable hand composition of the documented steps (fault-free arm of the batch simulator)",
    text="generated fault-free experiments (units in all documented spellings, integer and float data, 0..2 bead rows); every returned sample bit-identical to the hand composition of the documented steps with the calibration functions the real bead processing returned; every statistics column equals FlowCal.stats on that sample (geometric ones on positive events, note iff needed); every histogram row equals np.histogram over the library bin edges and sums to the events inside them.",
    note="trusted: models/pipeline_ref.py (public library calls only); either histogram scale accepted for letter-case variants of 'channel'; calibration accuracy itself (C02) not claimed"),
+ "C15": dict(cat="exploration", ref="DESIGN.md 3 (C15)", technique="deterministic end-to-end simulation of excel_ui.run over simulated storage, clock and RNG with an I/O-history oracle and bounded liveness; seeded write/read round trips",
+   text="generated well-formed workbooks (written with openpyxl) and FCS files on the simulated disk, processed by the real excel_ui.run under every option tuple (plots, histogram sheet, explicit/default output path) with the open seams, the simulated clock, the owned RNG and a recorded savefig; run must return within the liveness bound, write exactly the documented files (valid PNG/XLSX), leave inputs untouched, preserve every input row and column in order, add the documented result columns, and stamp the About sheet with the simulated clock; plus seeded tables through write_workbook -> read_table; thorough also runs the shipped example workbook.",
+   note="trusted: openpyxl for writing inputs and reading outputs; None/NaN/empty are one cell value; three known findings about pandas' reader conversions in read_table are listed in known_findings.json; write-side crashes not modelled"),
 }
 def main():
     checks = []
